@@ -31,7 +31,7 @@ ASSUMPTIONS = ["polars null semantics: a null predicate drops the row in filter;
 COLS = {"ia": "int", "ib": "int", "fa": "float", "fb": "float", "sa": "str", "sb": "str", "ba": "bool"}
 BAD = ["z", "y", "x", "zvec", "yvec", "xvec"]
 DF_OPS = {"filter", "sort", "head", "tail", "sample", "group_by", "cutby"}
-NP_OPS = {"subset", "concat", "concat_with", "append", "alias_append", "copy", "with_features", "drop_features"}
+NP_OPS = {"subset", "concat", "concat_with", "append", "alias_append", "df_append_df", "copy", "with_features", "drop_features"}
 
 
 def pos_of(uid):
@@ -375,6 +375,30 @@ def judge(d):
                 if res is not real:
                     out.append(viol("C12/append-not-inplace", f"{tag}: append did not return self"))
                 models[ti] = MTable(cols, mt.rows + [{"uid": r["uid"], "f": {c: r["f"].get(c) for c in cols}} for r in m2.rows])
+        elif name == "df_append_df":
+            # a data-frame operation, an in-place append, another data-frame operation on the same table: the second one sees the
+            # appended rows (also for tables without features)
+            if mt.has_bad():
+                continue
+            first = real.head(op["n"] % (n + 2))
+            add(first, MTable(cols, mt.rows[:op["n"] % (n + 2)]))
+            k_rows = max(1, n // 2) if n else 0
+            if n:
+                extra_r = real.subset(slice(0, k_rows))
+                extra_rows = [{"uid": r["uid"], "f": dict(r["f"])} for r in mt.rows[:k_rows]]
+            else:
+                extra_r, extra_rows = new_table({"n": 2, "cols": [], "vals": {}, "untyped_empty": False})
+                extra_rows = extra_rows.rows
+            if n == 0 and cols:
+                continue
+            real.append(extra_r)
+            models[ti] = MTable(cols, mt.rows + extra_rows)
+            mt2 = models[ti]
+            n2 = len(mt2.rows)
+            c2 = op["n2"] % (n2 + 2)
+            add(real.tail(c2), MTable(cols, mt2.rows[max(0, n2 - c2):] if c2 else []))
+            mask2 = [bool(op["mask"][i % len(op["mask"])]) for i in range(n2)] if op["mask"] else [True] * n2
+            add(real.filter(mask2), MTable(cols, [r for r, b in zip(mt2.rows, mask2) if b]))
         elif name == "alias_append":
             # a second table built from this one without changing it (copy / concat of one / concat_with an empty table) must
             # not change when rows are appended to the first one (or the other way round)
@@ -466,6 +490,11 @@ def judge(d):
                 expect_raise(tag + " wrong feature length",
                              lambda: Molecules(real.pos, real.rotator if n else None, features={"q": list(range(k2))}),
                              (ValueError,))
+                if n > 0:
+                    # a feature frame that has columns but no rows is a length mismatch too
+                    expect_raise(tag + " zero feature rows",
+                                 lambda: Molecules(real.pos, real.rotator, features=pl.DataFrame({"q": pl.Series([], dtype=pl.Int64)})),
+                                 (ValueError,))
             elif kind == "coord-name":
                 if n == 0:
                     continue
@@ -516,7 +545,7 @@ masks = st.lists(st.booleans(), max_size=8)
 @st.composite
 def op_strategy(draw, palette):
     name = draw(st.sampled_from(["new", "copy", "subset", "subset", "filter", "filter", "sort", "head", "tail",
-                                 "sample", "concat", "concat", "concat_with", "append", "alias_append", "with_features", "drop_features",
+                                 "sample", "concat", "concat", "concat_with", "append", "alias_append", "df_append_df", "with_features", "drop_features",
                                  "group_by", "cutby", "reject"]))
     op = {"op": name, "t": draw(T)}
     if name == "new":
@@ -547,6 +576,10 @@ def op_strategy(draw, palette):
         op["three"] = draw(st.booleans())
         op["nullable"] = draw(st.booleans())
         op["as_iter"] = draw(st.sampled_from([0, 0, 1, 2]))
+    elif name == "df_append_df":
+        op["n"] = draw(st.integers(0, 12))
+        op["n2"] = draw(st.integers(0, 12))
+        op["mask"] = draw(masks)
     elif name == "alias_append":
         op["how"] = draw(st.sampled_from(["copy", "concat1", "concat_with_empty"]))
         op["target"] = draw(st.integers(0, 1))
